@@ -25,7 +25,10 @@ provide media information to Anaconda installer.
 """
 
 
+import re
 import time
+
+import six
 
 import productmd.common
 
@@ -65,7 +68,12 @@ class DiscInfo(productmd.common.MetadataBase):
         self._assert_type("disc_numbers", [list])
         if self.disc_numbers == ["ALL"]:
             return
-        # TODO: check if disc numbers are integers
+        for i in self.disc_numbers:
+            if isinstance(i, six.string_types) and re.match(r"^[0-9]+\Z", i):
+                # numbers given as text are written as they are
+                continue
+            if isinstance(i, bool) or not isinstance(i, six.integer_types):
+                raise TypeError("%s: Field 'disc_numbers' must hold integers: %r" % (self.__class__.__name__, i))
 
     def _get_parser(self):
         return []
